@@ -156,7 +156,7 @@ def meEnsemble (xs : List Val) (qs : List Rat) : Except Err (List Val) :=
   | [] => .ok []
   | [x] => .ok [x]
   | _ :: _ =>
-    match xs.mapM numOf with
+    match mapMExcept numOf xs with
     | .error e => .error e
     | .ok nums =>
       if nums.all (fun q => q == nums.headD 0) then .ok xs
@@ -216,10 +216,18 @@ def bootstrapSlice (s : List Cell) (n : Nat) (field : Option (List String)) (P :
     Except Err (List (List Cell)) :=
   mapMExcept (fun i => replicate s (field.getD (fieldsOf s)) (P i) i) (List.range n)
 
-/-- `sum(boot)`: `0 + a` is `a`, then `Triangle(x.cells + y.cells)` left to right -/
+/-- `acc + b₁ + b₂ + …`, each `+` being `Triangle(x.cells + y.cells)` -/
+def sumFrom : List Cell → List (List Cell) → Except Err (List Cell)
+  | acc, [] => .ok acc
+  | acc, b :: bs =>
+    match Triangle.add acc b with
+    | .error e => .error e
+    | .ok a => sumFrom a bs
+
+/-- `sum(boot)`: `0 + a` is `a`, then left to right -/
 def sumTriangles : List (List Cell) → Except Err (List Cell)
   | [] => .ok []
-  | a :: rest => rest.foldlM (fun acc b => Triangle.add acc b) a
+  | a :: rest => sumFrom a rest
 
 /-- `bootstrap(triangle, n, seed, field)`; `P k i` are the draws for slice `k`, replicate `i` -/
 def bootstrap (t : List Cell) (n : Int) (field : Option (List String)) (P : Nat → Nat → RepParam) :
